@@ -158,6 +158,13 @@ class LJNode(cabc.Mapping, cabc.Sequence):
 
     def _getitem_sequence(self, key):
         if isinstance(key, int):
+            # the last entry of offsets/sizes describes the whole sequence,
+            # so it must stay out of reach of the element indices
+            n = len(self)
+            if key < 0:
+                key += n
+            if not 0 <= key < n:
+                raise IndexError("LJNode index out of range")
             rtn = self._load_or_node(self.offsets[key], self.sizes[key])
         elif isinstance(key, slice):
             key = slice(*key.indices(len(self)))
